@@ -368,18 +368,20 @@ func (r *Runner) contractCall(st *State, f *Frame, sp *FuncSpec, callee *ssa.Fun
 		}
 	}
 	pre := r.shadow(st)
-	// havoc the frame
-	if sp.ModAll {
-		r.havocAllHeaps(st)
-	}
+	// the callee may allocate: the watermark moves BEFORE the frame is havocked, so that a havocked
+	// reference may be one the callee allocated (fresh(x) in its postcondition: pre.W < x <= st.W)
 	var tgts []ModTarget
 	for _, m := range sp.Modifies {
 		tgts = append(tgts, env.evalModSafe(m))
 	}
+	st.bumpW()
+	// havoc the frame
+	if sp.ModAll {
+		r.havocAllHeaps(st)
+	}
 	for _, tgt := range tgts {
 		r.havocTarget(st, tgt)
 	}
-	st.bumpW()
 	if sp.Yields {
 		r.yield(st)
 	}
@@ -402,17 +404,33 @@ func (r *Runner) contractCall(st *State, f *Frame, sp *FuncSpec, callee *ssa.Fun
 	}
 	env.old = pre
 	for _, c := range sp.Ensures {
+		// calls()/calledwith()/lastret()... count the calls made directly by the body of the function UNDER
+		// VERIFICATION; a callee's postcondition about its own call history says nothing in the caller's
+		// history and must not be assumed here (it would contradict the caller's counters)
+		// Such sub-terms are replaced by fresh unconstrained values (the clause is weakened to its existential
+		// closure over them, which the callee's proof implies); if the clause cannot be evaluated that way it
+		// is not assumed at all.
+		hist := mentionsCallHistory(c.Src)
 		func() {
 			defer func() {
 				if e := recover(); e != nil {
 					if se, ok := e.(specErr); ok {
+						if hist {
+							return
+						}
 						panic(specErr{fmt.Sprintf("%s (in ensures[%s] of %s at a call site)", se.msg, c.Label, sp.Key)})
 					}
 					panic(e)
 				}
 			}()
-			st.assume(env.EvalBool(c.E, st))
+			env.callSite = hist
+			g := env.EvalBool(c.E, nil)
+			facts := env.facts
+			env.callSite = false
+			st.assume(facts...)
+			st.assume(g)
 		}()
+		env.callSite = false
 	}
 	for _, a := range sp.Acquires {
 		p := env.lockPlace(a)
@@ -938,4 +956,14 @@ func (r *Runner) builtinAppend(st *State, f *Frame, args []Val, res ssa.Value, p
 	other.trail = append(other.trail, "append:grow")
 	doGrow(other)
 	r.work = append(r.work, other)
+}
+
+// mentionsCallHistory: the clause refers to the call history of the function whose contract it belongs to.
+func mentionsCallHistory(src string) bool {
+	for _, w := range []string{"calls(", "calledwith(", "lastret(", "lastretb(", "lastarg(", "argsat(", "mapsamesince("} {
+		if strings.Contains(src, w) {
+			return true
+		}
+	}
+	return false
 }
